@@ -149,4 +149,4 @@ impl<FB: FrameBuffer> ZXBorder<FB> {
 
 #[cfg(kani)]
 #[path = "/verif/hooks/core/border.rs"]
-mod verif_hooks;
+pub(crate) mod verif_hooks;
